@@ -19,11 +19,22 @@ def run(ctx, prop="C07", family="C07", engines_each=True):
     for inst in insts:
         for rep in range(reps):
             names = ["std", "numeric", "lower"][rep % 3]
-            concrete = lastext.concretise(inst["text"], rng, {"names": names, "neg": rep % 2 == 1})
+            # on text-free data the other null policies must give what 'strict' gives (no sample is a sentinel here); they force
+            # the normal engine and run their substitutions over every line.  Blank-only separators: the regexp policies
+            # are known to mistake a tab after a blank for a token (outside this property)
+            textfree = not any(ln["k"] == "data" and any(c["cls"] != "FIN" for c in ln["cells"]) for ln in inst["text"])
+            policy = None
+            spacedlm = not any(ln["k"] == "item" and ln["m"] == "DLM" for ln in inst["text"])
+            if textfree and spacedlm and rep == reps - 1:
+                policy = [["all"], ["numbers-only"], ["aggressive"], [["NULL", "numbers-only"]]][len(events) % 4][0]
+            concrete = lastext.concretise(inst["text"], rng, {"names": names, "neg": rep % 2 == 1 and policy is None,
+                                                               "notabs": policy is not None})
             for eng in ("numpy", "normal"):
-                ev = lastext.read_event(prop, inst, concrete, engines=(eng,), names=names)
+                ev = lastext.read_event(prop, inst, concrete, engines=(eng,), names=names,
+                                        extra_kw={"null_policy": policy} if policy is not None else None)
                 events.append(ev)
-                lastext.engine_drift(ctx, inst, ev, eng)
+                if policy is None:
+                    lastext.engine_drift(ctx, inst, ev, eng)
                 meta.append({"tag": inst["tag"], "engine": eng, "concrete": concrete})
                 ctx.evaluations += 1
                 ctx.case([inst["tag"], eng])
